@@ -474,6 +474,8 @@ pub fn tier_runs(prop: Prop, tier: &str) -> u64 {
 
 /// Parent: the whole check. Returns the process exit code.
 pub fn check(prop: Prop, tier: &str, exe: &Path) -> i32 {
+    // the parent minimises in-process: injected panics of user functions must stay quiet
+    crate::env::install_quiet_panic_hook();
     let batch_seed = batch_seed_from_env();
     let runs = tier_runs(prop, tier);
     println!(
